@@ -47,6 +47,7 @@ typedef struct {
 	void *buf;
 	size_t n;
 	int ret;
+	sqfs_u8 vk;	/* payload reads: the byte delivered at position g_k */
 } env_read_rec_t;
 
 typedef struct {
@@ -94,6 +95,19 @@ static void env_init(void)
 #define ENV_ON_WRITE(p, n) ((void)0)
 #endif
 
+/* Which read_at destinations are payload buffers (large, only the witness
+ * position is tracked) as opposed to small on-stack records that are filled
+ * completely? Under CBMC the object size decides (statically known, so the
+ * other branch is pruned); natively the transfer size, unless the harness
+ * knows better. Both must agree for the tape to replay. */
+#ifndef ENV_IS_PAYLOAD
+#ifdef VERIF_REPLAY
+#define ENV_IS_PAYLOAD(p, n) ((n) > ENV_SMALL)
+#else
+#define ENV_IS_PAYLOAD(p, n) (VERIF_OBJECT_SIZE(p) > ENV_SMALL)
+#endif
+#endif
+
 /* any error a callee may report: every negative int */
 static int env_nd_error(const char *tag)
 {
@@ -122,19 +136,18 @@ static int stub_read_at(sqfs_file_t *file, sqfs_u64 offset,
 	ENV_ON_WRITE(buffer, size);
 
 	/* delivered bytes (also on failure: the buffer is then arbitrary) */
-	if (size <= ENV_SMALL) {
+	if (!ENV_IS_PAYLOAD(buffer, size)) {
 		size_t i;
 		for (i = 0; i < ENV_SMALL; ++i) {
 			if (i < size)
 				b[i] = verif_nd_u8("read_at.byte");
 		}
 	} else {
-		size_t j = verif_nd_size("read_at.j");
-		sqfs_u8 v = verif_nd_u8("read_at.v");
-		if (j < size)
-			b[j] = v;
+		sqfs_u8 v = verif_nd_u8("read_at.vk");
 		if (g_k < size)
-			b[g_k] = verif_nd_u8("read_at.vk");
+			b[g_k] = v;
+		if (g_rd_n < ENV_LOG)
+			g_rd[g_rd_n].vk = v;
 	}
 
 	fail = verif_nd_bool("read_at.fail");
@@ -145,8 +158,10 @@ static int stub_read_at(sqfs_file_t *file, sqfs_u64 offset,
 		++g_rd_n;
 		return e;
 	}
-	/* determinism of the image */
-	if (g_img_off >= offset && g_img_off - offset < size)
+	/* determinism of the image (small reads only; a payload read is
+	   identified by its log entry: offset, length, byte at g_k) */
+	if (!ENV_IS_PAYLOAD(buffer, size) &&
+	    g_img_off >= offset && g_img_off - offset < size)
 		b[g_img_off - offset] = g_img_val;
 	if (g_rd_n < ENV_LOG)
 		g_rd[g_rd_n].ret = 0;
@@ -171,14 +186,8 @@ static sqfs_s32 stub_do_block(sqfs_compressor_t *cmp, const sqfs_u8 *in,
 	r = verif_nd_int("do_block.ret");
 	if (r > 0 && (sqfs_u32)r > outsize)
 		r = (sqfs_s32)(outsize <= 0x7FFFFFFF ? outsize : 0x7FFFFFFF);
-	if (r > 0) {
-		size_t j = verif_nd_size("do_block.j");
-		sqfs_u8 v = verif_nd_u8("do_block.v");
-		if (j < (size_t)r)
-			out[j] = v;
-		if (g_k < (size_t)r)
-			out[g_k] = g_blk_val;
-	}
+	if (r > 0 && g_k < (size_t)r)
+		out[g_k] = g_blk_val;
 	if (g_blk_n < ENV_LOG) {
 		g_blk[g_blk_n].in = in;
 		g_blk[g_blk_n].n = size;
@@ -213,9 +222,6 @@ static void *verif_memcpy(void *dst, const void *src, size_t n)
 				((sqfs_u8 *)dst)[i] = ((const sqfs_u8 *)src)[i];
 		}
 	} else {
-		size_t j = nondet_verif_size();
-		if (j < n)
-			((sqfs_u8 *)dst)[j] = ((const sqfs_u8 *)src)[j];
 		if (g_k < n)
 			((sqfs_u8 *)dst)[g_k] = ((const sqfs_u8 *)src)[g_k];
 	}
@@ -239,9 +245,6 @@ static void *verif_memset(void *dst, int c, size_t n)
 				((sqfs_u8 *)dst)[i] = (sqfs_u8)c;
 		}
 	} else {
-		size_t j = nondet_verif_size();
-		if (j < n)
-			((sqfs_u8 *)dst)[j] = (sqfs_u8)c;
 		if (g_k < n)
 			((sqfs_u8 *)dst)[g_k] = (sqfs_u8)c;
 	}
